@@ -48,6 +48,10 @@ func genC14(tier string) []*Prog {
 	add("float-special", "\tz := 0.0\n\tnz := -z\n\tfmt.Println(z/z, 1/z, -1/z, nz, 1/nz)\n")
 	add("float-arith", "\tfmt.Println(f*2, f/3, f+0.5, -f)\n")
 	add("int-bounds", "\tfmt.Println(-2147483648, 2147483647, uint32(4294967295), int8(-128), byte(255))\n")
+	// values with a history: containers after deletes, re-inserts, appends, re-slices and element writes
+	add("map-after-delete", "\tm := map[string]int{\"a\": a, \"b\": 2}\n\tdelete(m, \"a\")\n\tfmt.Println(m, len(m))\n\tn := map[int]string{1: \"x\", a: \"y\"}\n\tdelete(n, 1)\n\tdelete(n, 7)\n\tfmt.Println(len(n))\n\tq := map[string]bool{\"k\": p}\n\tdelete(q, \"k\")\n\tfmt.Println(q, len(q))\n\tq[\"z\"] = p\n\tfmt.Println(q)\n")
+	add("map-delete-reinsert", "\tm := map[string]int{\"a\": 1}\n\tdelete(m, \"a\")\n\tm[\"a\"] = a\n\tfmt.Println(m)\n\tw := map[string][]int{\"k\": {a}, \"g\": {1}}\n\tdelete(w, \"g\")\n\tw[\"k\"] = append(w[\"k\"], 2)\n\tfmt.Println(w)\n\to := map[string]map[string]int{\"o\": {\"i\": a, \"j\": 2}}\n\tdelete(o[\"o\"], \"j\")\n\tfmt.Println(o)\n")
+	add("slice-history", "\ts := []int{a, 2, 3, 4}\n\tt := s[1:3]\n\tt[0] = 9\n\tfmt.Println(s, t, s[:0], s[4:], len(t))\n\ts = append(s[:1], 7)\n\tfmt.Println(s, t)\n\tvar e []string\n\te = append(e, \"x y\")\n\tfmt.Println(e, len(e))\n")
 	add("wraps", "\tfmt.Println(a+a, b+b, c+c, u+u, u-1)\n")
 	var progs []*Prog
 	for i, t := range tpls {
@@ -79,7 +83,7 @@ func checkC14(tier string, seed int64) int {
 	c.confirmLemmaFailures(res, func(id string) string { return "printing obligation " + strings.TrimPrefix(id, "C14/") + " fails" })
 	agg.Into(c, "")
 	c.Cov("paths_compared", st.compared)
-	c.Cov("rule", "print templates (Println/Print/Sprint of each scalar kind, slices and single-entry maps of each kind as element/value/key, multi-operand Println, builtin println, nesting depth 2–5 of slices and single-entry maps, empty and nil containers, float literals around the %v thresholds, NaN/±Inf/−0, integer bounds, wrap-around results) with all scalar leaves symbolic: integers are compared as decimal renderings of the 64-bit value (so uint32 ≥ 2^31 and negative int8 are decided for every value), floats as 'the same float64 reaches the same formatter'; plus harnesses for &{Field:value ...} struct rendering in declaration order and for termination of String(), Sprint, Println and println on cyclic object graphs through struct references, typed containers and containers of `any` (self-cycles, 2- and 3-cycles, through slices and maps); exceeding the engine's call-depth / step bound while rendering is reported as a violation and confirmed by the native helper dying of stack exhaustion")
+	c.Cov("rule", "print templates (Println/Print/Sprint of each scalar kind, slices and single-entry maps of each kind as element/value/key, multi-operand Println, builtin println, nesting depth 2–5 of slices and single-entry maps, empty and nil containers, containers after deletes / re-inserts / appends / re-slices, float literals around the %v thresholds, NaN/±Inf/−0, integer bounds, wrap-around results) with all scalar leaves symbolic: integers are compared as decimal renderings of the 64-bit value (so uint32 ≥ 2^31 and negative int8 are decided for every value), floats as 'the same float64 reaches the same formatter'; plus harnesses for &{Field:value ...} struct rendering in declaration order and for termination of String(), Sprint, Println and println on cyclic object graphs through struct references, typed containers and containers of `any` (self-cycles, 2- and 3-cycles, through slices and maps); exceeding the engine's call-depth / step bound while rendering is reported as a violation and confirmed by the native helper dying of stack exhaustion")
 	c.Assumption("digit generation of fmt/strconv is uninterpreted (dec/flt renderers are injective symbols); multi-entry maps (iteration order) and pointer addresses are outside the claim")
 	_ = gosx.Unsat
 	return c.Finish(false)
